@@ -137,8 +137,8 @@ impl Check for C06 {
     }
     fn episodes(&self, tier: Tier) -> u64 {
         match tier {
-            Tier::Quick => 150_000,
-            Tier::Thorough => 6_000_000,
+            Tier::Quick => 8_000_000,
+            Tier::Thorough => 400_000_000,
         }
     }
     fn same_class(&self, a: &str, b: &str) -> bool {
